@@ -498,14 +498,26 @@ def declaration(mesh, case: dict, after_calls_applied: bool) -> Dict[str, Any]:
                 "cls": type(entity).__name__,
                 "ops": decl_ops,
                 "geometry": {} if geo is None else {k: list(v) for k, v in geo.items()},
+                # a sphere shape: what its geometry strings are made from (the model prints them)
+                "sphere": (
+                    {entity.geometry_label: {"c": [float(x) for x in entity.center_point], "r": _spec_nums([[entity.radius]])[0][0]}}
+                    if geo is not None and all(hasattr(entity, a) for a in ("geometry_label", "center_point", "radius")) and list(geo) == [entity.geometry_label]
+                    else {}
+                ),
                 "shape_labels": shape_labels,  # geometry names of the shapes inside an Assembly
             }
         )
     return {"entities": ents}
 
 
-def _g_entries(d: Dict[str, List[str]]) -> List[List[str]]:
-    return [[w_str(k)] + w_list([w_toks(tokenize(p)) for p in props]) for k, props in d.items()]
+def _g_entries(d: Dict[str, List[str]], sphere: Optional[dict] = None) -> List[List[str]]:
+    out = []
+    for k, props in d.items():
+        if sphere and k in sphere:
+            out.append([w_str(k), "SPH"] + [_coord_words(x) for x in sphere[k]["c"]] + [_pynum_word(sphere[k]["r"])])
+        else:
+            out.append([w_str(k)] + w_list([w_toks(tokenize(p)) for p in props]))
+    return out
 
 
 def request_words(decl: dict, case: dict, settings: Dict[str, Any], tails: List[Optional[List[List[str]]]]) -> List[str]:
@@ -565,7 +577,7 @@ def request_words(decl: dict, case: dict, settings: Dict[str, Any], tails: List[
             for ed in o["edges"]:
                 w += ed
             ops.append(w)
-        ents.append(w_list(ops) + w_list(_g_entries(e["geometry"])))
+        ents.append(w_list(ops) + w_list(_g_entries(e["geometry"], e.get("sphere"))))
     words += w_list(ents)
     words.append("1" if case.get("reassemble") or case.get("rewrite") else "0")
     return words
@@ -715,11 +727,11 @@ class C06(core.Check):
         if "error" in impl:
             return []
         w = " ".join(impl["words"])
-        reqs = ["c06.render " + w, "c06.parse " + " ".join(esc(t) for t in impl["tokens"])]
+        # the raw text of the written file goes with the declaration: the model assembles once, renders, tokenizes the
+        # text itself and compares (c06.file answers everything c06.render does)
+        reqs = ["c06.file " + w_str(impl["text"]) + " " + w, "c06.parse " + " ".join(esc(t) for t in impl["tokens"])]
         if impl["vtk"] is not None:
             reqs.append("c06.vtk " + w)
-        # the raw text of the written file: tokenized and compared with the rendering inside the model
-        reqs.append("c06.file " + w_str(impl["text"]) + " " + w)
         return reqs
 
     def compare(self, case: dict, impl: Any, model: List[str]) -> Optional[str]:
@@ -727,11 +739,13 @@ class C06(core.Check):
             return None if model[0] == case["want"] else f"request {case['req']!r}: answer {model[0][:80]!r}, expected {case['want']}"
         if impl.get("vtk_missing"):
             return "write(path, debug_path) did not write the debug VTK"
-        m = re.fullmatch(r"ok idx=(\d) geom=(\d) quads=(\d) rt=(\d) num=(\d) T ?(.*)", model[0])
+        m = re.fullmatch(r"ok idx=(\d) geom=(\d) quads=(\d) rt=(\d) num=(\d) same=(\d) wf=(\d) relex=(\d) at=(\S+) T ?(.*)", model[0])
         if not m:
             return "model: " + model[0][:200]
-        toks = [unesc(t) for t in m.group(6).split(" ")] if m.group(6) else []
+        toks = [unesc(t) for t in m.group(10).split(" ")] if m.group(10) else []
         real = impl["tokens"]
+        if toks != real and m.group(6) == "1":
+            return "the model's tokenizer reads the text of the file as the model's rendering, the harness' tokenizer does not: the two tokenizers disagree"
         if toks != real:
             for i, (a, b) in enumerate(zip(toks, real)):
                 if a != b:
@@ -762,17 +776,12 @@ class C06(core.Check):
                 return "parseVtk does not read the model's VTK back"
             if mv.group(2) != "1":
                 return "a VTK coordinate printed by the model fails the validator reprOk / reprShortest"
-        mf = re.fullmatch(r"ok same=(\d) wf=(\d) relex=(\d) at=(\S+) T ?(.*)", model[-1])
-        if not mf:
-            return "model file: " + model[-1][:200]
-        ft = [unesc(t) for t in mf.group(5).split(" ")] if mf.group(5) else []
-        if mf.group(1) != "1":
-            i = int(mf.group(4)) if mf.group(4) != "-" else 0
-            return f"the text of the file, tokenized by the model, differs from the model's rendering at token {i}: file {ft[max(0, i - 4):i + 4]}, model {toks[max(0, i - 4):i + 4]}"
-        if ft != real:
-            return f"the model's tokenizer and the harness' tokenizer disagree on the text of the file: {len(ft)} / {len(real)} tokens"
-        if mf.group(2) != "1" or mf.group(3) != "1":
-            return f"a rendered token is not well-formed (wf={mf.group(2)}) or the rendering does not read back from its text (relex={mf.group(3)}): instance of T_C06_lex_unlex fails"
+        # (the harness' tokens equal the rendering at this point; `same` says the model's own tokenization of the text does too)
+        if m.group(6) != "1":
+            i = int(m.group(9)) if m.group(9) != "-" else 0
+            return f"the text of the file, tokenized by the model, differs from the model's rendering at token {i} although the harness' tokenizer agrees: model {toks[max(0, i - 4):i + 4]}"
+        if m.group(7) != "1" or m.group(8) != "1":
+            return f"a rendered token is not well-formed (wf={m.group(7)}) or the rendering does not read back from its text (relex={m.group(8)}): instance of T_C06_lex_unlex fails"
         return None
 
     # ------------------------------------------------------------------ oracle: the property on the file itself
